@@ -438,6 +438,17 @@ func cmdCheck(args []string) int {
 			}
 			fmt.Printf("FORK %6d %s\n", x.v, x.k)
 		}
+		l = nil
+		for k, v := range queryStats {
+			l = append(l, kv{k, v})
+		}
+		sort.Slice(l, func(i, j int) bool { return l[i].v > l[j].v })
+		for i, x := range l {
+			if i > 25 {
+				break
+			}
+			fmt.Printf("QUERYSITE %6d %s\n", x.v, x.k)
+		}
 	}
 	wall := time.Since(t0).Seconds()
 	fmt.Printf("SUMMARY property=%s tier=%s harnesses=%d paths=%d ssa_instrs=%d obligations=%d discharged=%d violations_confirmed=%d unconfirmed=%d unsupported_paths=%d queries=%d solver_s=%.1f wall_s=%.1f\n",
